@@ -1,4 +1,64 @@
+import os, subprocess, sys
+sys.path.insert(0, os.path.join(os.path.dirname(os.path.dirname(os.path.abspath(__file__))), "lib"))
+import vcheck
+
 T = "GeomV.C18."
+
+
+def pregen(chk):
+    """Source tie for the atomic-step structure: extract, with go/ast, the lock / read / write / keep-call /
+    flag skeleton of every function the model is written against (harness/cmd/c18/skel.go) from the CURRENT
+    tree and compare it with harness/cmd/c18/skeleton.expected, the skeleton the model's atomic steps were
+    derived from.  A difference is a broken tie (named by function), even when no input behaves differently."""
+    ok, gobin, out = vcheck.go_build("c18", chk.rundir)
+    if not ok:
+        return  # reported by the main flow as a harness compile failure
+    p = subprocess.run([gobin, "skel", os.path.join(vcheck.REPO, "encoding", "osm")],
+                       stdout=subprocess.PIPE, stderr=subprocess.STDOUT, text=True)
+    if p.returncode != 0:
+        chk.broken.append("skeleton extraction failed: " + p.stdout.strip()[-300:])
+        return
+    want = open(os.path.join(vcheck.HARNESS, "cmd", "c18", "skeleton.expected")).read().strip().split("\n")
+    got = p.stdout.strip().split("\n")
+    wd = dict(l.split(": ", 1) for l in want if ": " in l)
+    gd = dict(l.split(": ", 1) for l in got if ": " in l)
+    bad = sorted(f for f in set(wd) | set(gd) if wd.get(f) != gd.get(f))
+    if bad:
+        chk.broken.append("lock/read/write skeleton of encoding/osm changed in: " + ", ".join(bad) +
+                          " (model atomic steps were derived from harness/cmd/c18/skeleton.expected)")
+
+def post(chk, pairs, stats):
+    """thorough tier: side check of the atomicity assumption — rebuild the harness with the Go race detector and
+    replay the first cases; a reported data race means a lock-protected region is not atomic (outside the model)."""
+    if chk.tier != "thorough" or os.environ.get("VERIF_C18_NORACE"):
+        return
+    out = os.path.join(chk.rundir, "c18race")
+    args = ["go", "build", "-race", "-tags", "verif", "-o", out]
+    if vcheck.REPO != "/repo":
+        args += ["-modfile", os.path.join(chk.rundir, "alt.mod")]
+    args.append("./cmd/c18")
+    env = dict(vcheck.GOENV, CGO_ENABLED="1")
+    with vcheck.Lock("go"):
+        b = subprocess.run(args, cwd=vcheck.HARNESS, env=env, stdout=subprocess.PIPE, stderr=subprocess.STDOUT, text=True)
+    if b.returncode != 0:
+        stats["classes"]["INFO-race-build-unavailable"] = 1
+        return
+    lines = [l.split(" => ")[0] for l, _ in pairs][:250]
+    try:
+        r = subprocess.run([out, "impl"], input="\n".join(lines) + "\n", env=dict(env, GORACE="halt_on_error=0"),
+                           stdout=subprocess.PIPE, stderr=subprocess.PIPE, text=True, timeout=900)
+    except subprocess.TimeoutExpired:
+        stats["classes"]["INFO-race-run-timeout"] = 1
+        return
+    n = r.stderr.count("WARNING: DATA RACE")
+    stats["classes"]["INFO-race-detector-cases"] = len(lines)
+    stats["classes"]["INFO-race-detector-reports"] = n
+    if n:
+        vcheck.log(r.stderr[:3000])
+        chk.broken.append("Go race detector reports %d data race(s) in encoding/osm under the harness: a lock-protected "
+                          "region is not atomic, which the interleaving model assumes" % n)
+
+
 CFG = {
     "id": "C18",
     "lean_modules": ["GeomV.C18.Proofs"],
@@ -6,6 +66,8 @@ CFG = {
     "exe": "geomv_c18",
     "go_cmd": "c18",
     "stages": ["go:gen", "go:impl", "lean:judge"],
+    "pregen": pregen,
+    "post": post,
     "theorems": [T + n for n in [
         "closure_least", "closure_closed",
         "C18_sound", "C18_sound_run",
@@ -30,7 +92,7 @@ CFG = {
         "which covers KeepTags, KeepBounds and KeepAll",
         "documents contain only node/way/relation elements (a changeset element makes a worker return early; not part of the property)",
     ],
-    "rule": "generated OSM XML documents of 5-80 (thorough 5-160) elements in 7 file orders (canonical, relations first, ways before nodes, descending ids, "
+    "rule": "generated OSM XML documents of 5-80 (thorough 5-140) elements in 7 file orders (canonical, relations first, ways before nodes, descending ids, "
             "reversed, shuffled within kind, fully shuffled), ways sharing runs of nodes and straddling the bounds, empty ways/relations, relation cycles and "
             "relations of relations, 10-60% of nodes inside the bounds, a separate stream with dangling references; each document with KeepBounds, a KeepTags "
             "variant and KeepAll; per case one GOMAXPROCS=1 extraction, 6-48 extractions steered through the wrapped KeepFunc (sleep/Gosched before or after the "
